@@ -55,8 +55,11 @@ func c17R1(c *Check, validate, merge, urls *ssa.Function) {
 	}
 	for i, r := range returnsOf(validate) {
 		key := fmt.Sprintf("return#%d", i+1)
+		knownErr := ff.At(r).NonNil(r.Results[0])
 		for _, l := range Leaves(r.Results[0], leafOpts{noConcat: true}) {
 			switch {
+			case isNilConst(l) && knownErr:
+				c.Pass("C17.R1", key, P.Pos(instrPos(r)), "returns a value known to be a non-nil error here")
 			case isNilConst(l):
 				c.Fail("C17.R1", key, P.Pos(instrPos(r)), "Validate returns a constant nil: a configuration can be accepted without the final generated validation")
 			case l == va:
@@ -190,24 +193,20 @@ func c17R1(c *Check, validate, merge, urls *ssa.Function) {
 			continue
 		}
 		ff := FactsOf(vf)
-		for _, r := range returnsOf(vf) {
-			if len(r.Results) == 0 {
-				continue
-			}
-			isM := false
-			for d := range dataDeps(r.Results[0]) {
-				if isLoadOfGlobal(d, g) {
-					isM = true
+		// the refusal is produced where the sentinel is loaded (returned at once, or carried to the return
+		// through a result variable): the latch fact must hold there
+		for _, b := range vf.Blocks {
+			for _, ins := range b.Instrs {
+				ld, isL := ins.(*ssa.UnOp)
+				if !isL || !isLoadOfGlobal(ld, g) {
+					continue
 				}
-			}
-			if !isM {
-				continue
-			}
-			for cond, pol := range ff.At(r) {
-				if ph, isPhi := cond.(*ssa.Phi); isPhi && pol && isBool(ph.Type()) {
-					for _, e := range ph.Edges {
-						if b, isC := constBool(e); isC && b {
-							okLatch = true
+				for cond, pol := range ff.At(ld) {
+					if ph, isPhi := cond.(*ssa.Phi); isPhi && pol && isBool(ph.Type()) {
+						for _, e := range ph.Edges {
+							if b, isC := constBool(e); isC && b {
+								okLatch = true
+							}
 						}
 					}
 				}
